@@ -154,7 +154,10 @@ impl<'a> IntoIterator for &'a BytesExpr {
 
 fn fixed_byte(input: &str, digits: usize, radix: u32) -> LexResult<'_, u8> {
     let (digits, rest) = take(input, digits)?;
-    match u8::from_str_radix(digits, radix) {
+    // `from_str_radix` tolerates a leading `+`, which is not a digit: parse the
+    // sign on its own in that case so that it is reported as an invalid digit.
+    let number = if digits.starts_with('+') { "+" } else { digits };
+    match u8::from_str_radix(number, radix) {
         Ok(b) => Ok((b, rest)),
         Err(err) => Err((LexErrorKind::ParseInt { err, radix }, digits)),
     }
